@@ -14,14 +14,14 @@ from eglib.model import ANY, ERROR, NONNEIGHBOR, ref_neighbors, ref_reach
 
 
 def cases(max_v=8, max_e=14, classes=6, settings=True):
-    def mk(g, uni, s, d, u, via, res):
+    def mk(g, uni, s, d, u, via, res, cache=False):
         nv = g["nv"]
         if uni is not None:
             uni = list(dict.fromkeys(x % nv for x in uni)) or [s % nv]
             start = uni[s % len(uni)]
         else:
             start = s % nv
-        return {"g": g, "uni": uni, "start": start, "d": d, "u": u, "via": via, "res": res}
+        return {"g": g, "uni": uni, "start": start, "d": d, "u": u, "via": via, "res": res, "cache": cache}
 
     return st.builds(
         mk,
@@ -34,6 +34,7 @@ def cases(max_v=8, max_e=14, classes=6, settings=True):
         st.integers(0, 2) if settings else st.just(2),
         graphs.filter_specs if settings else st.none(),
         st.one_of(st.none(), st.integers(0, 255)) if settings else st.none(),
+        st.booleans(),
     )
 
 
@@ -58,6 +59,15 @@ class Setup:
         res = case["res"]
         self.rf_int = None if res is None else (lambda i: (res >> (i % 8)) & 1 == 1)
         self.rf = None if res is None else (lambda v: self.rf_int(self.vi[id(v)]))
+
+    def fresh_ff(self, accept_all=False):
+        """A new short-lived ff_via callable at every call (same truth table unless accept_all)."""
+        if accept_all:
+            return lambda e, v: True
+        f, vi, li = self.f, self.vi, self.li
+        if f is None:
+            return None
+        return lambda e, v: f(li[id(e)], vi[id(v)])
 
     def kw(self, res=False):
         k = dict(direction_sensitive=self.d, unknown_handling=self.u, ff_via=self.ff)
@@ -117,6 +127,17 @@ def neighbor_budget(limit):
         yield count
     finally:
         helpers.neighbors = real
+
+
+@contextlib.contextmanager
+def caching(on):
+    from edgegraph.structure import Vertex
+
+    Vertex.NEIGHBOR_CACHING = bool(on)
+    try:
+        yield
+    finally:
+        Vertex.NEIGHBOR_CACHING = False
 
 
 def bounded_list(gen, limit, what):
